@@ -4,10 +4,13 @@
 package zzvrt
 
 import (
+	"bytes"
 	"encoding/json"
 	"fmt"
 	"math/big"
 	"os"
+	"os/exec"
+	"path/filepath"
 	"reflect"
 	"runtime/debug"
 	"sort"
@@ -54,6 +57,10 @@ func Load(path string) (Replay, error) {
 	cur = r
 	out = Outcome{}
 	counter = map[string]int{}
+	replayPath = path
+	once = nil
+	cliCalls = 0
+	stdinFile = ""
 	return r, nil
 }
 
@@ -122,6 +129,24 @@ func value(name string) *big.Int {
 func Symbolic() bool { return false }
 
 func BigInt(name string) *big.Int { return value(name) }
+
+var once map[string]*big.Int
+
+// BigIntOnce is BigInt with one symbol per name, however often it is asked for.
+func BigIntOnce(name string) *big.Int {
+	if once == nil {
+		once = map[string]*big.Int{}
+	}
+	if v, ok := once[name]; ok {
+		return v
+	}
+	v := value(name)
+	once[name] = v
+	return v
+}
+
+// HasPrefix is strings.HasPrefix, decided structurally when the strings are symbolic.
+func HasPrefix(s, prefix string) bool { return strings.HasPrefix(s, prefix) }
 
 func Int(name string, lo, hi int) int {
 	v := value(name)
@@ -298,6 +323,125 @@ func FrozenWrites() int {
 		return 1
 	}
 	return 0
+}
+
+// ---- command-line environment (natively: real files, real stdin, a child process)
+
+type CLIOut struct {
+	Exited bool
+	Code   int
+	Stdout string
+	Stderr string
+}
+
+var (
+	replayPath string
+	stdinFile  string
+	cliCalls   int
+	lastStdout string
+)
+
+func tempDir() string {
+	d := os.Getenv("ZZ_TMPDIR")
+	if d == "" {
+		d, _ = os.MkdirTemp("", "zzvrt")
+		os.Setenv("ZZ_TMPDIR", d)
+	}
+	return d
+}
+
+// TempFile makes `content` readable at the returned path.
+func TempFile(name, content string) string {
+	p := filepath.Join(tempDir(), name)
+	os.WriteFile(p, []byte(content), 0o644)
+	return p
+}
+
+// JSONFile makes the JSON encoding of v readable at the returned path.
+func JSONFile(name string, v interface{}) string {
+	b, err := json.Marshal(v)
+	if err != nil {
+		panic(assumeFailed{"JSONFile: " + err.Error()})
+	}
+	return TempFile(name, string(b))
+}
+
+// JSONString is the JSON text of v.
+func JSONString(v interface{}) string {
+	b, err := json.Marshal(v)
+	if err != nil {
+		panic(assumeFailed{"JSONString: " + err.Error()})
+	}
+	return string(b)
+}
+
+// SetStdinJSON makes the JSON encoding of v the content of the command's standard input.
+func SetStdinJSON(v interface{}) {
+	stdinFile = JSONFile("stdin.json", v)
+}
+
+const cliBegin, cliEnd = "\x01ZZ-CLI-BEGIN\x01", "\x01ZZ-CLI-END\x01"
+
+// CLI runs f as the body of a command: what it prints and whether (and how) it
+// exits are observed. Natively f runs in a child process (the test binary
+// re-executed on the same replay), because os.Exit cannot be intercepted.
+func CLI(f func()) CLIOut {
+	cliCalls++
+	if os.Getenv("ZZ_CLI_CHILD") == fmt.Sprint(cliCalls) {
+		if stdinFile != "" {
+			if fh, err := os.Open(stdinFile); err == nil {
+				os.Stdin = fh
+			}
+		}
+		os.Stdout.WriteString(cliBegin)
+		os.Stderr.WriteString(cliBegin)
+		f()
+		os.Stdout.WriteString(cliEnd)
+		os.Stderr.WriteString(cliEnd)
+		os.Exit(0)
+	}
+	lp := filepath.Join(tempDir(), fmt.Sprintf("child-list-%d.json", cliCalls))
+	lb, _ := json.Marshal([]string{replayPath})
+	os.WriteFile(lp, lb, 0o644)
+	cmd := exec.Command(os.Args[0], "-test.run=^TestZZVerifReplay$")
+	cmd.Env = append(os.Environ(), "ZZ_CLI_CHILD="+fmt.Sprint(cliCalls), "VERIF_REPLAY_LIST="+lp)
+	var so, se bytes.Buffer
+	cmd.Stdout, cmd.Stderr = &so, &se
+	err := cmd.Run()
+	code := 0
+	if ee, ok := err.(*exec.ExitError); ok {
+		code = ee.ExitCode()
+	} else if err != nil {
+		panic(assumeFailed{"CLI child: " + err.Error()})
+	}
+	cut := func(s string) (string, bool) {
+		i := strings.Index(s, cliBegin)
+		if i < 0 {
+			return "", false
+		}
+		s = s[i+len(cliBegin):]
+		if j := strings.Index(s, cliEnd); j >= 0 {
+			return s[:j], true
+		}
+		return s, false
+	}
+	stdout, finished := cut(so.String())
+	stderr, _ := cut(se.String())
+	lastStdout = stdout
+	out := CLIOut{Exited: !finished, Code: code, Stdout: stdout, Stderr: stderr}
+	if finished {
+		out.Code = 0
+	}
+	return out
+}
+
+// StdoutIsJSONOf: the last command printed exactly the JSON encoding of v.
+func StdoutIsJSONOf(v interface{}) bool {
+	b, err := json.Marshal(v)
+	if err != nil {
+		return false
+	}
+	return lastStdout == string(b)
 }
 
 // Stubbed returns the recorded argument lists of a function the VM replaced by a
